@@ -220,7 +220,7 @@ pub fn run(ctx: &Ctx) -> i32 {
         }
     });
     agg.merge(total.into_inner().unwrap());
-    let cases = ctx.tier.pick(12_000, 400_000);
+    let cases = ctx.tier.pick(40_000, 1_200_000);
     if agg.failure.is_none() {
         agg.merge(run_prop(ctx, "c15-input", 16, cases, strategy, |inp: &Input| {
             let o = eval(inp);
